@@ -134,6 +134,16 @@ BTree_check_inner(BTree *self, Bucket *nextbucket)
             child = self->data[i].child;
             CHECK(SameType_Check(self, child),
                     "BTree children have different types");
+            /* Only the root may be empty:  an empty interior node has no
+             * firstbucket, and the range and iteration code relies on every
+             * child leading to a bucket.
+             */
+            UNLESS (PER_USE(child))
+                goto Done;
+            activated_child = child;
+            CHECK(child->len >= 1, "BTree has an empty BTree child");
+            PER_ALLOW_DEACTIVATION(child);
+            activated_child = NULL;
             if (i == self->len - 1)
                 bucketafter = nextbucket;
             else
